@@ -182,6 +182,26 @@ Theorem C12_records_well_formed : forall cfg ops,
 Proof. intros cfg ops. exact (exec_wf cfg ops (state_init cfg) (init_wf cfg)). Qed.
 Print Assumptions C12_records_well_formed.
 
+(* get_table_dataframe after ANY history (reporters that never raise at a collect, as in C12_refinement): for every
+   declared table with at least one column the frame exists (no ValueError: the columns are aligned), its columns are the
+   declared columns in order and row i holds the cells of the i-th accepted row of that table - None where a column was
+   missing and ignore_missing=True filled it *)
+Theorem C12_table_frame_rows : forall cfg ops t cs,
+  NoDup (map fst (c_mreps cfg)) -> NoDup (map fst (c_tables cfg)) ->
+  forallb (ok_at cfg) (collect_worlds world_init ops) = true ->
+  In (t, cs) (c_tables cfg) -> cs <> [] ->
+  exists cols, In (t, cols) (d_tables (s_d (exec cfg (state_init cfg) ops))) /\
+    table_frame cols = Ok {| cf_cols := cs;
+                             cf_rows := map (fun r => map (fun c => row_cell r c) cs) (rows_for t (accepted cfg ops)) |}.
+Proof.
+  intros cfg ops t cs H1 H2 H3 Hin Hne.
+  rewrite (r_tables _ _ _ _ (refinement cfg ops H1 H2 H3)).
+  exists (map (fun c => (c, map (fun r => row_cell r c) (rows_for t (accepted cfg ops)))) cs). split.
+  - unfold tables_of. apply in_map_iff. exists (t, cs). split; [reflexivity|exact Hin].
+  - exact (table_frame_rows cs _ Hne).
+Qed.
+Print Assumptions C12_table_frame_rows.
+
 (* ================= collects during which a reporter raises =================
    EXACTLY the state collect leaves behind when it raises (`raised` lists the four ways: validation at the first
    collect - nothing appended; model reporter number j - reporters 0..j-1 appended, j.. not, nothing else touched;
@@ -319,13 +339,17 @@ Example C12_example :
               length (af_rows fr) = 3%nat /\ af_cols fr = [0; 1] /\
               map fst (group_rows (af_rows fr)) = [0; 1]) /\
   (exists fr, model_frame ex_cfg (s_d (exec ex_cfg (state_init ex_cfg) ex_ops)) = Ok fr /\
-              length (cf_rows fr) = 3%nat /\ cf_cols fr = [0; 1; 2; 3]).
+              length (cf_rows fr) = 3%nat /\ cf_cols fr = [0; 1; 2; 3]) /\
+  (* a row with a missing column accepted under ignore_missing shows up as None in the table frame *)
+  (exists cols, aget 0 (d_tables (s_d (exec ex_cfg (state_init ex_cfg) (ex_ops ++ [AddRow 0 [(1, Some 9)] true])))) = Some cols /\
+     table_frame cols = Ok {| cf_cols := [0; 1]; cf_rows := [[Some 1; None]; [None; Some 9]] |}).
 Proof.
   repeat split; try (vm_compute; reflexivity).
   - repeat constructor; simpl; intuition congruence.
   - repeat constructor; simpl; intuition congruence.
   - repeat constructor; simpl; intuition congruence.
   - eexists. vm_compute. reflexivity.
+  - eexists. vm_compute. repeat split; reflexivity.
   - eexists. vm_compute. repeat split; reflexivity.
   - eexists. vm_compute. repeat split; reflexivity.
 Qed.
